@@ -189,6 +189,11 @@ def proj_str(proj, depth=0):
             s += '<%s>' % e[1]
         elif e[0] == 'vp':
             s += '.<payload>'
+        elif e[0] == 'range':
+            r = e[1]
+            a = agg_field(r, 'start') if is_agg(r) else None
+            b = agg_field(r, 'end') if is_agg(r) else None
+            s += '[%s..%s]' % (term_str(a, depth + 1) if a else '', term_str(b, depth + 1) if b else '')
         elif e[0] == 'i':
             s += '[%s]' % term_str(e[1], depth + 1)
         elif e[0] == 'ci':
@@ -415,6 +420,11 @@ class Interp:
                         v = fv
                         continue
                 return ('proj', v, tuple(proj[n:]))
+            if v[0] == 'vecarr' and e[0] == 'i' and e[1][0] == 'int':
+                fv = agg_field(v[1], str(e[1][1]))
+                if fv is not None:
+                    v = fv
+                    continue
             if v[0] == 'closure' and e[0] == 'f' and e[1].isdigit() and int(e[1]) < len(v[2]):
                 v = v[2][int(e[1])]
                 continue
@@ -637,7 +647,9 @@ class Interp:
         if k == 'cast':
             a = self.operand(st, fr, rv['a'])
             ck = rv['ck']
-            if ck.startswith('PointerCoercion') or ck in ('PtrToPtr', 'Transmute') and a[0] == 'ref':
+            if ck.startswith('PointerCoercion') or ck == 'PtrToPtr':
+                return a
+            if ck == 'Transmute' and (a[0] == 'ref' or rv['to'].startswith(('*', '&', 'std::boxed::Box<', 'std::ptr::NonNull<'))):
                 return a
             if a[0] == 'int' and ck == 'IntToInt':
                 return INT(self.wrap(a[1], rv['to']))
@@ -981,6 +993,8 @@ class Interp:
             else:
                 exits.append(s)
         info['carried'] = sorted(path_str(p) for p in W)
+        info['entry'] = {path_str(p): self.read(st, p) for p in W}
+        info['carried_paths'] = {path_str(p): p for p in W}
         loop_eff = ('loop', uid, info, bodies)
         for s in exits:
             tail = s.eff[mark:]
@@ -1506,11 +1520,11 @@ class Interp:
         if decl in ('std::ops::Index::index', 'std::ops::IndexMut::index_mut') and not self.local_body(t):
             idx = args[1]
             base = a0
-            if base[0] == 'ref':
-                if idx[0] == 'agg' and idx[1].startswith('std::ops::Range'):
-                    return ('ref', (base[1][0], base[1][1] + (('range', idx),)))
-                return ('ref', (base[1][0], base[1][1] + (('i', idx),)))
-            return ('index', base, idx)
+            if base[0] != 'ref':
+                base = ('ref', (('T', base), ()))
+            if idx[0] == 'agg' and idx[1].startswith('std::ops::Range'):
+                return ('ref', (base[1][0], base[1][1] + (('range', idx),)))
+            return ('ref', (base[1][0], base[1][1] + (('i', idx),)))
         if decl == 'core::f64::<impl f64>::max':
             return ('f64max', args[0], args[1])
         if decl == 'core::f64::<impl f64>::min':
@@ -1561,8 +1575,14 @@ class Interp:
             return ('bin', op, x, y, 'partial_eq')
         if decl in ('std::boxed::Box::<T>::new_uninit', 'std::boxed::box_assume_init_into_vec_unsafe'):
             if decl.endswith('into_vec_unsafe'):
-                v = a0
-                return ('vecof', v)
+                content = self.read(st, (('T', a0), ()))
+                if is_agg(content, 'array'):
+                    return ('vecarr', content)
+                # `vec![..]`: the array was stored through a raw pointer derived from the box
+                for (root, _pr), val in st.mem.items():
+                    if root[0] == 'T' and is_agg(val, 'array') and contains(root[1], a0):
+                        return ('vecarr', val)
+                return ('vecof', a0)
             return ('boxuninit', site)
         if decl == 'std::hint::unreachable_unchecked':
             self.finish(st, 'diverge', finished)
